@@ -5,6 +5,7 @@ for d in /tmp/seed/c*-out/m*; do
   base=$(basename $(dirname $d)); k=$(basename $d)
   case $base in
     *-r2-out) pid=$(echo $base | sed 's/-r2-out//' | tr a-z A-Z); k=r2$k;;
+    *-r3-out) pid=$(echo $base | sed "s/-r3-out//" | tr a-z A-Z); k=r3$k;;
     *) pid=$(echo $base | sed 's/-out//' | tr a-z A-Z);;
   esac
   dst=/verif/seeded/$pid-$k
